@@ -247,6 +247,13 @@ def check_conditional_axes(ctx):
             cases.append((case if case in ("Obs", "Fcst") else None, o))
     for which, o in cases:
         at = o.value.as_atom()
+        if o.value.key() in ("$nan", "$np.nan"):
+            continue                                  # an explicit NaN for an empty slice: nothing is scored on this path
+        if at is not None and at.func == "self._compute_from_obs_fcst":
+            ctx.ob("C05.7", site, False, "a slice is scored through compute_from_obs_fcst (pairs with a missing member removed, NaN when none is left)",
+                   loc=prog.loc(m, o.node), msg="compute_single calls _compute_from_obs_fcst directly: the pair filter of compute_from_obs_fcst is bypassed, and the "
+                   "one-element NaN placeholder that get_scores returns for a slice without valid pairs is scored as if it were a case")
+            continue
         ctx.need(at is not None and at.func == "self.compute_from_obs_fcst" and len(at.args) >= 2, "%s: unexpected return %s" % (site, o.value))
         a0, a1 = at.args[0], at.args[1]
         if which is None:
